@@ -7,6 +7,7 @@ set -u
 HERE="$(cd "$(dirname "${BASH_SOURCE[0]}")" && pwd)"
 export CARGO_NET_OFFLINE=true
 export SFV_VERIF_DIR="$HERE"
+ORIG_PWD="$PWD"
 cd "$HERE/harness" || exit 3
 mkdir -p "$HERE/evidence" "$HERE/replays"
 build() {
@@ -29,4 +30,8 @@ build release
 export SFV_DEV_BIN="$HERE/harness/target/debug/sfv"
 export SFV_REL_BIN="$HERE/harness/target/release/sfv"
 if [ "${1:-}" = build ]; then exit 0; fi
+if [ "${1:-}" = replay ] && [ -n "${2:-}" ]; then
+  case "$2" in /*) f="$2" ;; *) f="$ORIG_PWD/$2" ;; esac
+  exec "$SFV_REL_BIN" replay "$f"
+fi
 exec "$SFV_REL_BIN" "$@"
